@@ -11,6 +11,9 @@ Section ProxyProofs.
   Lemma stream_map_data ws : stream (map Data ws) = concat ws.
   Proof. induction ws as [|w r IH]; simpl; congruence. Qed.
 
+  Lemma neof_map_data ws : neof (map Data ws) = 0.
+  Proof. induction ws; simpl; auto. Qed.
+
   Lemma concat_writes_of rs : concat (writes_of rs) = concat (map fst rs).
   Proof.
     unfold writes_of. induction rs as [|[bs e] r IH]; simpl; auto.
@@ -81,7 +84,8 @@ Section ProxyProofs.
           intro E; inversion E; subst.
         + right. split; [discriminate|reflexivity].
         + left. apply read_all_sound in Er as (A & B & C). simpl in B, C. rewrite stream_map_data in B, C.
-          split; auto. split; auto. exists buf. repeat split; auto; apply A. }
+          split; auto. split; auto. exists buf. repeat split; auto; try apply A.
+          intro L. apply C; auto. apply neof_map_data. }
     destruct limit as [l|].
     - destruct (d_sz d >? l)%Z.
       + intro E; inversion E; subst. right. split; [discriminate|reflexivity].
